@@ -25,6 +25,7 @@ type counters struct {
 	NotExecuted       int64 `json:"inputs_not_executed"`
 	Crashes           int64 `json:"worker_process_deaths"`
 	StarContradictory int64 `json:"star_checks_skipped_contradictory_star_registrations"`
+	DupRegistrations  int64 `json:"duplicate_registrations_without_replace"`
 	ExcusedAfterError int64 `json:"order_anomalies_excused_because_an_earlier_call_returned_an_error"`
 }
 
@@ -47,6 +48,7 @@ func (c *counters) add(o *counters) {
 	c.NotExecuted += o.NotExecuted
 	c.Crashes += o.Crashes
 	c.ExcusedAfterError += o.ExcusedAfterError
+	c.DupRegistrations += o.DupRegistrations
 	c.StarContradictory += o.StarContradictory
 }
 
@@ -125,6 +127,17 @@ func (m *model) check(p *pipeCfg, order []ent, ctr *counters) (kind, detail stri
 		if !r.on {
 			return "a removed / never registered callback fires", p.names[e.Name]
 		}
+		if r.dup {
+			if r.gens&(1<<uint(e.Gen)) == 0 {
+				return "a handler fires that is none of the registrations of a name registered twice", fmt.Sprintf("%s: generation %d", p.names[e.Name], e.Gen)
+			}
+			cnt[e.Name]++
+			if cnt[e.Name] > 2 || (cnt[e.Name] == 2 && order[pos[e.Name]].Gen == e.Gen) {
+				return "a callback fires more than once", p.names[e.Name]
+			}
+			pos[e.Name] = i
+			continue
+		}
 		if e.Gen != r.gen {
 			return "a stale handler fires (the latest Replace/Register of the name did not take effect)", fmt.Sprintf("%s: generation %d fires, expected %d", p.names[e.Name], e.Gen, r.gen)
 		}
@@ -143,14 +156,14 @@ func (m *model) check(p *pipeCfg, order []ent, ctr *counters) (kind, detail stri
 	// named constraints of the current registrations
 	for i := 0; i < n; i++ {
 		r := m.r[i]
-		if !r.on {
-			continue
+		if !r.on || r.dup {
+			continue // (a name registered twice: its own constraints are not checked)
 		}
 		if r.x >= 0 && r.x != star {
 			if int(r.x) == i {
 				return "a callback registered before/after itself was accepted", p.names[i]
 			}
-			if m.r[r.x].on {
+			if m.r[r.x].on && !m.r[r.x].dup {
 				ctr.SideChecks++
 				if !(pos[i] < pos[r.x]) {
 					return "callback is not before the callback it names", fmt.Sprintf("%s registered Before(%s)", p.names[i], p.names[r.x])
@@ -161,7 +174,7 @@ func (m *model) check(p *pipeCfg, order []ent, ctr *counters) (kind, detail stri
 			if int(r.y) == i {
 				return "a callback registered before/after itself was accepted", p.names[i]
 			}
-			if m.r[r.y].on {
+			if m.r[r.y].on && !m.r[r.y].dup {
 				ctr.SideChecks++
 				if !(pos[i] > pos[r.y]) {
 					return "callback is not after the callback it names", fmt.Sprintf("%s registered After(%s)", p.names[i], p.names[r.y])
@@ -172,7 +185,7 @@ func (m *model) check(p *pipeCfg, order []ent, ctr *counters) (kind, detail stri
 	// built-ins keep their original relative order
 	last := -1
 	for i := 0; i < p.nb; i++ {
-		if m.r[i].on && m.r[i].builtin {
+		if m.r[i].on && m.r[i].builtin && !m.r[i].dup {
 			if last >= 0 {
 				ctr.BuiltinPairs++
 				if !(pos[last] < pos[i]) {
@@ -190,12 +203,12 @@ func (m *model) check(p *pipeCfg, order []ent, ctr *counters) (kind, detail stri
 		ctr.StarContradictory++
 	} else if chkB != 0 || chkA != 0 {
 		for i := 0; i < n; i++ {
-			if !m.r[i].on {
+			if !m.r[i].on || m.r[i].dup {
 				continue
 			}
 			bi := uint16(1) << uint(i)
 			for j := 0; j < n; j++ {
-				if j == i || !m.r[j].on {
+				if j == i || !m.r[j].on || m.r[j].dup {
 					continue
 				}
 				bj := uint16(1) << uint(j)
